@@ -52,38 +52,54 @@ def c13_t1(ctx, f):
     if not fn or not adt:
         return
     fields = [x["name"] for x in adt["variants"][0]["fields"]]
-    F = fold.Folder(f)
-    W, H = 111, 222
-
+    from . import peval
     def opt(v):
         if v is None:
             return ("adt", "std::option::Option", 0, "None", ())
         return ("adt", "std::option::Option", 1, "Some", (mk_int("u32", v),))
 
-    want = {(True, True): ("Size", [W, H]), (True, False): ("Width", [W]), (False, True): ("Height", [H]), (False, False): ("Original", [])}
-    for (hw, hh), exp in want.items():
-        vals = {"fit_width": opt(W if hw else None), "fit_height": opt(H if hh else None)}
-        selfv = ("adt", IMGB, 0, "ImageBuilder", tuple(vals.get(n, TOP) for n in fields))
-        r = F.run(fn.path, [("ref", ("const", selfv)), TOP])
-        fits = []
-        for e in r.trace:
-            if e["depth"] != 1:
-                continue
-            for a in e["dargs"]:
-                if a != TOP and a[0] == "adt" and a[1].endswith("FitTo"):
-                    fits.append((e["callee"], a[3], [to_py(x) for x in a[4]]))
-        inst = "width=%s,height=%s" % ("set" if hw else "unset", "set" if hh else "unset")
-        users = sorted({c.split("::")[-1] for c, _, _ in fits})
-        agree = bool(fits) and all((v, p) == exp for _, v, p in fits)
-        ok = agree and "render" in users and "fit_to" in users
-        if (agree or not fits) and not ok and r.kind != "ret":
-            # the folder did not get as far as the rendering call (code outside its language): what it saw agrees
-            ctx.abstain(rid, "%s: to_pixmap not folded up to the render call (%s: %s)" % (inst, r.kind, r.why), where_fn(fn))
-            continue
-        ctx.check(rid, ok, "%s/fit/%s" % (fn.path, inst), where_fn(fn), fn.path, inst,
-                  "the fit request is translated to the wrong FitTo (or size computation and rendering use different ones)",
-                  expected=exp, found=[(c.split("::")[-1], v, p) for c, v, p in fits] or str(r),
-                  sample="%s -> FitTo::%s%s used by %s" % (inst, exp[0], exp[1], users))
+    def side(variant, payload):
+        """the square side a FitTo request yields for a square document (None = original size): Width(w) and Height(w) are the
+        same request there, Size(w, h) fits the square into the box"""
+        if variant == "Original":
+            return None
+        if variant in ("Width", "Height") and len(payload) == 1:
+            return payload[0]
+        if variant == "Size" and len(payload) == 2:
+            return min(payload)
+        return ("?", variant, payload)
+
+    for (W, H) in ((111, 222), (222, 111)):
+        for hw in (True, False):
+            for hh in (True, False):
+                vals = {"fit_width": opt(W if hw else None), "fit_height": opt(H if hh else None)}
+                selfv = ("adt", IMGB, 0, "ImageBuilder", tuple(vals.get(n, TOP) for n in fields))
+                F = peval.PEval(f, max_steps=400000)
+                F.lenient = True       # usvg/resvg/tiny-skia calls are opaque
+                F.record_trace = True
+                F.summaries["convert::svg::SvgBuilder::to_str"] = lambda pe_, st_, a_, t_: TOP  # the document is decided by C12 rules
+                r = F.run(fn.path, [("ref", ("const", selfv)), TOP])
+                fits = []
+                for e in r.trace:
+                    if e["depth"] != 1:
+                        continue
+                    for a in e["dargs"]:
+                        if a != TOP and a[0] == "adt" and a[1].endswith("FitTo"):
+                            fits.append((e["callee"], a[3], [to_py(x) for x in a[4]]))
+                inst = "width=%s,height=%s" % (W if hw else "unset", H if hh else "unset")
+                exp = min(W, H) if (hw and hh) else (W if hw else (H if hh else None))
+                users = sorted({c.split("::")[-1] for c, _, _ in fits})
+                agree = bool(fits) and all(side(v, p) == exp for _, v, p in fits)
+                ok = agree and "render" in users and "fit_to" in users
+                if (agree or not fits) and not ok and r.kind != "ret":
+                    # the folder did not get as far as the rendering call (code outside its language): what it saw agrees
+                    ctx.abstain(rid, "%s: to_pixmap not folded up to the render call (%s: %s)" % (inst, r.kind, r.why), where_fn(fn))
+                    continue
+                ctx.check(rid, ok, "%s/fit/%s" % (fn.path, inst.replace(str(W), "w").replace(str(H), "h")), where_fn(fn), fn.path, inst,
+                          "the fit request does not yield the largest square satisfying it (or size computation and rendering use "
+                          "different requests)", expected="square side %s" % (exp if exp is not None else "original"),
+                          found=[(c.split("::")[-1], v, p) for c, v, p in fits] or str(r),
+                          sample="%s -> side %s via %s" % (inst, exp if exp is not None else "original", sorted({v for _, v, _ in fits})))
 
 
 def c13_r2(ctx, f):
